@@ -123,6 +123,24 @@ def annotateOld (existing : List GeneFn) (prevIds : List Int) (defs : List (Int 
   let withCore := defs.foldl (fun acc kv => kv.2.foldl (fun acc d => addNew acc ⟨true, d, some kv.1⟩) acc) existing
   domains.foldl (fun acc d => if allMatching.contains d then acc else addNew acc ⟨false, d, none⟩) withCore
 
+/-- `SecMetQualifier.add_domains` on the names: the gene's existing domain ids (empty when the
+    qualifier is created by `annotate`), then the new ones, every name once (first occurrence) -/
+def domainIdsAfter (prevIds newDomains : List Int) : List Int := ASV.Refine.firstOcc (prevIds ++ newDomains)
+
+/-- `CDSResults.annotate` from the results' own domain list: `self.domains` are added to the
+    qualifier first, the ADDITIONAL pass then runs over the qualifier's domains -/
+def annotateFull (existing : List GeneFn) (prevIds : List Int) (defs : List (Int × List Int)) (newDomains : List Int) :
+    List GeneFn :=
+  annotate existing prevIds defs (domainIdsAfter prevIds newDomains)
+
+/-- `gather_record_areas`: `protoclusters_by_obj = {proto: i for i, proto in enumerate(region.get_unique_protoclusters())}`
+    and, per candidate cluster, `[protoclusters_by_obj[proto] for proto in candidate.protoclusters]`: the numbers under
+    which the region's JSON lists and references its protoclusters -/
+def areasProtoclusterNumbers (cross : Bool) (L : Int) (enum : List Proto) (candidates : List (List Proto)) :
+    List Proto × List (List Nat) :=
+  let unique := uniqueProtoclusters cross L enum
+  (unique, candidates.map fun members => members.map fun p => unique.idxOf p)
+
 /-- `cluster_types = sorted(ruleset.get_rule_names())` (`get_rule_names` returns a set) -/
 def enabledTypes (ruleNames : List Int) : List Int := sortedNames ruleNames
 
